@@ -95,6 +95,7 @@ type caseT struct {
 	declProblems []string          // order profile: problems with the sequence of definitions
 	decls        []string          // names of the top-level Go declarations (catalogue)
 	nondet       bool              // conc: the Go result may depend on the schedule
+	cprog        *progen.CProg     // minigoc: the package as MiniGoC terms
 }
 
 var useL bool // compare with the MiniGoL model (loops, nested blocks)
@@ -135,6 +136,8 @@ func main() {
 	case "minigol":
 		cfg.Slices, cfg.Maps, cfg.Structs, cfg.Strings, cfg.Methods, cfg.Widths, cfg.Consts, cfg.MultiRes = false, false, false, false, false, false, false, false
 		cfg.NoCompl, cfg.NoCalls = true, true
+	case "minigoc":
+		// packages of the MiniGoC fragment come from their own generator (progen.GenerateCalls)
 	case "minigo-neg":
 		cfg.Slices, cfg.Maps, cfg.Structs, cfg.Strings, cfg.Methods, cfg.Widths, cfg.Consts, cfg.MultiRes = false, false, false, false, false, false, false, false
 		cfg.Loops, cfg.NoBlocks, cfg.NoCompl, cfg.NoCalls, cfg.Neg = false, true, true, true, true
@@ -186,8 +189,8 @@ func main() {
 		cases = catalogueCases(mod, *only, *skip, conc)
 		*n = 0
 	}
-	lenient := catalogue || *profile == "inject" || *profile == "minigo-neg" // declarations may be rejected
-	minigo := *profile == "minigo" || *profile == "minigo-neg" || *profile == "minigol"
+	lenient := catalogue || *profile == "inject" || *profile == "minigo-neg" || *profile == "minigoc" // declarations may be rejected
+	minigo := *profile == "minigo" || *profile == "minigo-neg" || *profile == "minigol" || *profile == "minigoc"
 	useL = *profile == "minigol"
 	var runner strings.Builder
 	runner.WriteString("package main\n\nimport (\n\t\"fmt\"\n\t\"sort\"\n\t\"strings\"\n")
@@ -206,8 +209,17 @@ func main() {
 	for c := 0; c < *n; c++ {
 		r := master.Fork()
 		name := fmt.Sprintf("p%03d", c)
-		pkg := progen.Generate(r, name, cfg)
-		src := pkg.GoFile()
+		var pkg *progen.Package
+		var src string
+		var cprog *progen.CProg
+		if *profile == "minigoc" {
+			cprog = progen.GenerateCalls(r, name, c%5 == 4)
+			pkg = &progen.Package{Name: name, Calls: cprog.Calls}
+			src = cprog.Src
+		} else {
+			pkg = progen.Generate(r, name, cfg)
+			src = pkg.GoFile()
+		}
 		dir := filepath.Join(mod, "g", name)
 		os.MkdirAll(dir, 0o755)
 		if *profile == "order" {
@@ -230,7 +242,7 @@ func main() {
 			os.WriteFile(filepath.Join(bdir, "p.go"), []byte(pkg.GoFile()), 0o644)
 			progen.PrintComments = true
 		}
-		cases = append(cases, &caseT{name: name, dir: "g/" + name, pkg: pkg, src: src, native: map[int]string{}, model: map[int]string{}})
+		cases = append(cases, &caseT{name: name, dir: "g/" + name, pkg: pkg, src: src, native: map[int]string{}, model: map[int]string{}, cprog: cprog})
 	}
 	for _, cs := range cases {
 		name, pkg := cs.name, cs.pkg
@@ -413,6 +425,10 @@ func main() {
 				for j, a := range cl.Args {
 					e = fmt.Sprintf("(App %s (Val %s))", e, coqArg(cl.ArgT[j], a))
 				}
+				if len(cl.Args) == 0 {
+					// a function without parameters takes the unit value
+					e = fmt.Sprintf("(App %s (Val (LitV LitUnit)))", e)
+				}
 				if conc {
 					fmt.Fprintf(&ev, "Eval vm_compute in (%d%%nat, show_outcomes (run_conc 400%%nat 20000%%nat %s)).\n", i, e)
 				} else {
@@ -555,6 +571,10 @@ func main() {
 // minigo compares the model of the translator (Tr/MiniGo.v) with goose's
 // output, function by function, and the model of Go with the native run.
 func (c *caseT) minigo(coqflags []string, out string) {
+	if c.cprog != nil {
+		c.minigoC(coqflags, out)
+		return
+	}
 	c.mgTr = map[string]string{}
 	c.mgGo = map[int]string{}
 	var b strings.Builder
@@ -604,6 +624,84 @@ func (c *caseT) minigo(coqflags []string, out string) {
 	os.WriteFile(filepath.Join(out, "mg_"+c.name+".v"), []byte(b.String()), 0o644)
 	txt := string(o)
 	parts := strings.Split(txt, "\"MARK ")
+	for _, p := range parts[1:] {
+		name := p[:strings.Index(p, "\"")]
+		if strings.Contains(p, "Error") {
+			e := p[strings.Index(p, "Error"):]
+			if len(e) > 600 {
+				e = e[:600]
+			}
+			c.mgTr[name] = e
+		} else {
+			c.mgTr[name] = "ok"
+		}
+	}
+	for _, m := range goRe.FindAllStringSubmatch(txt, -1) {
+		var i int
+		fmt.Sscanf(m[1], "%d", &i)
+		c.mgGo[i] = m[2]
+	}
+}
+
+// minigoC compares the model of the translation of packages with calls
+// (Tr/MiniGoC.v) with goose's output: the list of emitted values, in the order
+// of the emitted file, is the model's translation of the package (syntactic
+// equality), and the model of Go agrees with the native run.
+func (c *caseT) minigoC(coqflags []string, out string) {
+	c.mgTr = map[string]string{}
+	c.mgGo = map[int]string{}
+	cp := c.cprog
+	vtxt, _ := os.ReadFile(filepath.Join(out, "gen", c.dir+".v"))
+	var as, fs []string
+	emitted := map[string]bool{}
+	for _, m := range defRe.FindAllStringSubmatch(string(vtxt), -1) {
+		if _, ok := cp.Terms[m[1]]; !ok {
+			c.mgTr[m[1]] = "definition without a Go function"
+			continue
+		}
+		emitted[m[1]] = true
+		as = append(as, "A_"+m[1])
+		fs = append(fs, m[1])
+	}
+	for _, n := range cp.Names {
+		if n == cp.Bad {
+			if emitted[n] {
+				c.mgTr[n] = "goose accepted a parameter with the name of its function"
+			}
+		} else if !emitted[n] {
+			c.mgTr[n] = "function missing from the output"
+		}
+	}
+	var b strings.Builder
+	b.WriteString("From Coq Require Import ZArith String List.\nImport ListNotations.\nFrom GV Require Import Lang.GlSyntax Lang.GlSem Tr.MiniGo Tr.MiniGoC.\n")
+	fmt.Fprintf(&b, "From Goose Require Import gen.%s.\nSet Printing Width 100000.\nOpen Scope string_scope.\n", strings.ReplaceAll(c.dir, "/", "."))
+	for _, n := range cp.Names {
+		fmt.Fprintf(&b, "Definition A_%s : cfunc := %s.\n", n, cp.Terms[n])
+	}
+	fmt.Fprintf(&b, "Eval vm_compute in \"MARK PROG\".\nGoal trc_prog [%s] = Some [%s]. Proof. vm_compute. reflexivity. Qed.\n", strings.Join(as, "; "), strings.Join(fs, "; "))
+	all := as
+	if cp.Bad != "" && !emitted[cp.Bad] {
+		all = append(append([]string{}, as...), "A_"+cp.Bad)
+		fmt.Fprintf(&b, "Eval vm_compute in \"MARK REJECTED\".\nGoal trc_prog [%s] = None. Proof. vm_compute. reflexivity. Qed.\n", strings.Join(all, "; "))
+	}
+	fmt.Fprintf(&b, "Definition A_prog : cprog := [%s].\n", strings.Join(all, "; "))
+	for i, cl := range c.pkg.Calls {
+		var args []string
+		for j, a := range cl.Args {
+			args = append(args, strings.TrimSuffix(strings.TrimPrefix(coqArg(cl.ArgT[j], a), "("), ")"))
+		}
+		fmt.Fprintf(&b, "Eval vm_compute in (\"GO\", %d%%nat, show_cres (cgo_call 5000%%nat A_prog %q [%s])).\n", i, cl.Fn, strings.Join(args, "; "))
+	}
+	cmd := exec.Command("timeout", "300", "coqtop", "-q")
+	cmd.Args = append(cmd.Args, coqflags...)
+	cmd.Stdin = strings.NewReader(b.String())
+	o, _ := cmd.CombinedOutput()
+	os.WriteFile(filepath.Join(out, "mg_"+c.name+".v"), []byte(b.String()), 0o644)
+	txt := string(o)
+	parts := strings.Split(txt, "\"MARK ")
+	if len(parts) < 2 {
+		c.mgTr["PROG"] = "no answer from coqtop: " + txt
+	}
 	for _, p := range parts[1:] {
 		name := p[:strings.Index(p, "\"")]
 		if strings.Contains(p, "Error") {
